@@ -162,7 +162,7 @@ def run(ctx, res):
     work = tempfile.mkdtemp(prefix="c16_")
     try:
         # ------------------------------------------------------------ the recorded witnesses first (they name the findings)
-        wit = [k["input"].split(": ", 1)[-1] for k in known.values()]
+        wit = [k["input"].split(": ", 1)[-1] for k in known.values() if k["class"] in CLASSES]
         if wit:
             p = C.write_cases("c16_wit.txt", [C.case("law", s) for s in wit])
             check_law(res, "L1-witness", wit, C.run_model(model, p), C.run_impl(impl, p, len(wit)), known, st, V)
@@ -181,15 +181,16 @@ def run(ctx, res):
         check_law(res, "L1a", toks, mo, io, known, st, V)
         res.sample({"layer": "L1a", "input": toks[4242], "model": mo[4242], "impl": io[4242]})
         # text level: the implementation's output is the model's expand_args, or (repaired) expand_args_fixed
-        pr = C.write_cases("c16_rer.txt", [C.case("xa", s) for s in toks])
-        pf = C.write_cases("c16_rerfix.txt", [C.case("xafix", s) for s in toks])
-        ma, mf, ia = C.run_model(model, pr), C.run_model(model, pf), C.run_impl(impl, pr, len(toks))
+        tt = [s for s in toks if len(s) != 5]          # (informational: the length-5 block is left out in thorough runs)
+        pr = C.write_cases("c16_rer.txt", [C.case("xa", s) for s in tt])
+        pf = C.write_cases("c16_rerfix.txt", [C.case("xafix", s) for s in tt])
+        ma, mf, ia = C.run_model(model, pr), C.run_model(model, pf), C.run_impl(impl, pr, len(tt))
         n_a = sum(1 for x, y in zip(ma, ia) if x == y)
         n_f = sum(1 for x, y in zip(mf, ia) if x == y)
-        variant = "expand_args" if n_a == len(toks) else ("expand_args_fixed" if n_f == len(toks) else None)
+        variant = "expand_args" if n_a == len(tt) else ("expand_args_fixed" if n_f == len(tt) else None)
         # informational only: the binding comparison is on the observable (segments and tokens), above
-        res.extra["text_level_variant"] = variant or "neither (%d / %d of %d agree)" % (n_a, n_f, len(toks))
-        res.count("L1a_text", len(toks))
+        res.extra["text_level_variant"] = variant or "neither (%d / %d of %d agree)" % (n_a, n_f, len(tt))
+        res.count("L1a_text", len(tt))
         # ------------------------------------------------------------ L1b domain lines
         lines = gen_domain_lines(ctx)
         p = C.write_cases("c16_law2.txt", [C.case("law", s) for s in lines])
@@ -388,9 +389,10 @@ def layer2(ctx, res, known, V, work, lines):
     rng = ctx.rng
     hp = os.path.join(ctx.helpers, "hp")
     model = ctx.model["C16"]
-    pool = [l for l in lines if "\t" not in l and "\n" not in l]
+    # not comparable between processes: the shell's pid ($$, also once an escape in front of it is lost)
+    pool = [l for l in lines if "\t" not in l and "\n" not in l and "$$" not in l.replace("\\", "")]
     rng.shuffle(pool)
-    fixed = ["prog @ a\\;b", "prog @ a\\ b", "prog @ a\\#b", "prog @ 'a';prog @ b", "prog @x0||prog @ b", "prog @ 'a b' \"c d\" e",
+    fixed = ["prog @ a\\\\", "prog @ a\\;b", "prog @ a\\ b", "prog @ a\\#b", "prog @ 'a';prog @ b", "prog @x0||prog @ b", "prog @ 'a b' \"c d\" e",
              "prog @ \"a\\\"b\" ; prog @x3 || prog @ z", "prog @o hello > out.txt", "prog @ $V \"$V\" '$V'", "prog @ a{1,2}b",
              "prog @x1 && prog @ no ; prog @ yes", "prog @o a | prog @r", "prog @   spaced    out  ", "prog @ a # comment",
              "prog @ $(prog @o q)", "(prog @ a;prog @ b)", "prog @ x='a b'", "prog @ 'a'b"]
@@ -419,6 +421,9 @@ def layer2(ctx, res, known, V, work, lines):
             continue
         kc = klass(k)
         short = l.replace(hp, "hp")
+        # a mechanism outside expand_args (run_script's textual joining of continuation lines): no model prediction,
+        # so two outcomes only -- as -c (accepted) or recorded
+        tb = l.endswith("\\")
         for e in ("script", "function", "source"):
             ws = e != "function"      # the status of a function call is C15's subject (not the last command's status)
             if same(o[e], o["c"], with_status=ws):
@@ -426,7 +431,14 @@ def layer2(ctx, res, known, V, work, lines):
                     st["accepted"] = st.get("accepted", 0) + 1
                 continue
             as_model = same(o[e], o["c_rerender"], with_status=ws)
-            if kc is None:
+            if tb:
+                if "trailing-backslash" in known:
+                    res.known("trailing-backslash", "class=trailing-backslash e.g. %s line %r: argv %r, with -c: %r" % (
+                        e, short, o[e]["argv"], o["c"]["argv"]))
+                    st["trailing-backslash"] = st.get("trailing-backslash", 0) + 1
+                else:
+                    V("oracle", "L2", l, o["c"], o[e], True, "class trailing-backslash is not listed in known_findings.txt")
+            elif kc is None:
                 V("oracle", "L2", l, {"entry": "-c", **o["c"]}, {"entry": e, **o[e]}, True,
                   "the line behaves differently through entry point %s than through -c (outside every known class)" % e)
             elif not as_model:
